@@ -121,6 +121,15 @@ class gre (packet_base):
         self.strict_source_route = (flags & 0x800) != 0
         self.recursion = (flags & 0x700) >> 8
 
+        need = o
+        if csum_present or route_present: need += 4
+        if key_present: need += 4
+        if seq_present: need += 4
+        if dlen < need:
+            self.msg('warning GRE packet data too short for the fields its '
+                     + 'flags announce: data len %u' % (dlen,))
+            return
+
         offset = None
         if csum_present or route_present:
             self.csum,self.route_offset = struct.unpack("!HH", raw[o:o+4])
@@ -141,8 +150,14 @@ class gre (packet_base):
         if route_present:
             self.routing = []
             while True:
+                if dlen < o + 4:
+                    self.msg('warning GRE routing is truncated')
+                    return
                 af,so,sl = struct.unpack("!HBB", raw[o:o+4])
                 o += 4
+                if dlen < o + sl:
+                    self.msg('warning GRE routing is truncated')
+                    return
                 sd = raw[o:o+sl]
                 o += sl
                 self.routing.append((af,so,sl,sd))
